@@ -2,7 +2,7 @@
 MANIFEST = dict(
     technique='TLA+ serial-number specification Serial.tla model-checked with TLC (exhaustive for small moduli), the same lemmas in SerialApa.tla discharged symbolically by Apalache for the real moduli 2^16 and 2^32 (all operand triples), both bound to utils.uint16_*/uint32_* by call traces; every SCTP schedule is executed under small origins and under TSN / stream-sequence / reconfig-sequence origins next to the wrap points and TraceDataChannel.tla (TLC) requires the origin-free specification to accept all of them with identical observable events; RTP side: jitter-buffer and media-loop schedules and receiver-statistics histories executed under small origins and origins next to 2^16 / 2^32, equal observable results required (TLC origin groups)',
     text='Origin independence is decided as trace equivalence: the same op list (implementation-relative schedule) is run with small origins and with origins within a few units of 2^32 / 2^16; TLC requires every run to satisfy all data-channel clauses and the observable event sequence to be identical (clause origin_divergence). Serial arithmetic lemmas (antisymmetry, consistency with addition below half the space) are model-checked exhaustively for modulus 2^8 by TLC and proved for all operands at the real moduli 2^16 / 2^32 by Apalache (SMT, length 0); the real functions are validated on boundary-biased pairs and on the counter-examples the solver gives to the witness invariants.',
-    note='Trusted: TLC; the in-memory network and virtual-time loop of harness/sctp_env.py standing in for DTLS/UDP; the event recorder. The design-level result is exhaustive only within the stated constants and the in-flight bound; conformance of the code is sampled (lock-step replays of TLC behaviours, seeded random programs and fault schedules, saved regression schedules).',
+    note='Trusted: TLC, and Apalache 0.58 with Z3 for the serial lemmas at the real moduli; the in-memory network and virtual-time loop of harness/sctp_env.py standing in for DTLS/UDP; the event recorder. The design-level result is exhaustive only within the stated constants and the in-flight bound; conformance of the code is sampled (lock-step replays of TLC behaviours, seeded random programs and fault schedules, saved regression schedules).',
     design_ref='5/C17')
 
 from . import sctp_check  # noqa: E402
